@@ -15,7 +15,7 @@ RULE = ("(A) one or two public requests (read_sensor/write_setting 'modbus-N', s
         "depth <= retries+1 over the C04 alphabet extended with OS errors on send (ENETUNREACH, EHOSTUNREACH, EACCES, "
         "ECONNREFUSED) and on receive (ECONNREFUSED, ECONNRESET, ENETUNREACH, EHOSTUNREACH; prompt, delayed, and while "
         "idle with keep-alive), TCP connect failures; (B) all success/failure/rejection histories of length <= 5 (quick) "
-        "/ 8 (thorough) on one inverter; (C) every public coroutine of ET/DT/ES x device fault mode; (D) checksum-valid "
+        "/ 8 (thorough) on one inverter, and the same histories issued by two overlapping tasks (count judged in completion order); (C) every public coroutine of ET/DT/ES x device fault mode (silence, garbage, junk of 0..8 bytes, EOF, OS errors, exception codes 4 / 6, send errors, connect failures); (D) checksum-valid "
         "identification payloads (random, non-ASCII, control characters, short) for ET/DT/ES/discover; distinct = "
         "distinct (part, transport, configuration, outcome sequence) tuples")
 ASSUMPTIONS = [
